@@ -792,14 +792,15 @@ const pageMask = pageSize - 1"""),
       old="""	noExclude := !exclusive && len(exclude) == 0""",
       new="""	noExclude := !(exclusive || len(exclude) != 0)"""),
  dict(prop="C18", name="relation filter around include mask when noExclude (benign)", kind="B", file=GC,
-      old="""			q.relationFilter = ecs.NewRelationFilter(&q.maskFilter, target)
-			q.filter = &q.relationFilter""",
-      new="""			if noExclude {
-				q.relationFilter = ecs.NewRelationFilter(q.maskFilter.Include, target)
+      old="""			relationFilter := ecs.NewRelationFilter(q.maskFilter, target)
+			q.relationFilter = &relationFilter""",
+      new="""			var relationFilter ecs.RelationFilter
+			if noExclude {
+				relationFilter = ecs.NewRelationFilter(q.maskFilter.Include, target)
 			} else {
-				q.relationFilter = ecs.NewRelationFilter(&q.maskFilter, target)
+				relationFilter = ecs.NewRelationFilter(q.maskFilter, target)
 			}
-			q.filter = &q.relationFilter"""),
+			q.relationFilter = &relationFilter"""),
  dict(prop="C05", name="zero target via named local (benign)", kind="B", file=WI,
       old="""		arch.Init(node, w.archetypeData.Get(archIndex), archIndex, forStorage, layouts, Entity{})""",
       new="""		noTarget := Entity{}
